@@ -380,3 +380,21 @@ func (n *Node) ChainValidHeader() bool {
 	}
 	return true
 }
+
+
+// ResolvedArrived records that the implementation turned out to have stored a
+// block whose storage status the model had left open (Murky). Orphans that
+// were waiting for it are processed by the implementation in the same call;
+// with an open parent their own status is open as well, so they become Murky
+// (callers resolve them next: nodes are visited in creation order, children
+// after parents).
+func (s *Sel) ResolvedArrived(n *Node) {
+	delete(s.Murky, n)
+	s.Arrived[n] = true
+	for _, c := range n.Children {
+		if s.Orphan[c] {
+			delete(s.Orphan, c)
+			s.Murky[c] = true
+		}
+	}
+}
